@@ -393,7 +393,7 @@ impl<'tcx> Cx<'tcx> {
         let alloc = match tcx.global_alloc(alloc_id) {
             GlobalAlloc::Memory(a) => a,
             GlobalAlloc::Static(d) => return J::obj().set("static", J::s(self.path(d))).set("mutable", J::Bool(tcx.is_mutable_static(d))),
-            GlobalAlloc::Function { instance } => return J::obj().set("fnptr", J::s(self.path(instance.def_id()))),
+            GlobalAlloc::Function { instance } => return self.fn_alloc(instance),
             _ => return J::obj().set("opaque", J::s("alloc")),
         };
         let a = alloc.inner();
@@ -433,6 +433,26 @@ impl<'tcx> Cx<'tcx> {
                 self.const_value(cv, t, depth + 1)
             }
         }
+    }
+
+    /// Function pointer constant: name the closure itself when the pointer goes through a call_once shim.
+    fn fn_alloc(&mut self, instance: Instance<'tcx>) -> J {
+        let mut did = instance.def_id();
+        let mut closure = false;
+        if let InstanceKind::ClosureOnceShim { .. } = instance.def {
+            if let ty::Closure(cd, _) = *instance.args.type_at(0).kind() {
+                did = cd;
+                closure = true;
+            }
+        }
+        if self.tcx.is_closure_like(did) {
+            closure = true;
+        }
+        let mut o = J::obj().set("fnptr", J::s(self.path(did))).set("key", J::s(self.key(did)));
+        if closure {
+            o.put("closure", J::Bool(true));
+        }
+        o
     }
 
     fn decode_pointee(&mut self, alloc_id: mir::interpret::AllocId, off: u64, inner: Ty<'tcx>, meta: Option<u64>, depth: u32) -> J {
@@ -500,7 +520,7 @@ impl<'tcx> Cx<'tcx> {
                             J::obj().set("ref", v)
                         }
                         ty::FnPtr(..) => match tcx.global_alloc(alloc_id) {
-                            GlobalAlloc::Function { instance } => J::obj().set("fnptr", J::s(self.path(instance.def_id()))).set("key", J::s(self.key(instance.def_id()))),
+                            GlobalAlloc::Function { instance } => self.fn_alloc(instance),
                             _ => J::obj().set("opaque", J::s("fnptr")),
                         },
                         ty::Adt(..) | ty::Tuple(..) => self.destructure(cv, t, depth),
